@@ -54,6 +54,7 @@ def check(rep, F, rule='ASCII-ROUND'):
         for callee, args in eff:
             c = TB._plain(callee)
             if c.endswith('from_digit_and_lazy_trailing_zeros') and len(args) == 3:
+                args = N.lazy_ctor_args(F, c, args)
                 d = N.norm(args[1])
                 ok = False
                 if _is(d, 'bin') and d[1] == 'Sub' and N.norm(d[3]) == ('const', 48):
